@@ -225,19 +225,18 @@ func trimResultsToRange(dr *planner.DateRange, rowlen int, src []byte) (dest []b
 	}
 
 	nrecords = len(dest) / rowLength
-	if nrecords <= 1 {
-		return dest
-	}
+	// find the end of the range; no row at or before the end means nothing is in range
+	end := 0
 	for i := nrecords; i > 0; i-- {
 		cursor = (i - 1) * rowLength
 		t := TimeOfVariableRecord(dest, cursor, rowLength)
 		if t.Equal(dr.End) || t.Before(dr.End) {
-			dest = dest[:cursor+rowLength]
+			end = cursor + rowLength
 			break
 		}
 	}
 
-	return dest
+	return dest[:end]
 }
 
 func TimeOfVariableRecord(buf []byte, cursor, rowLength int) time.Time {
